@@ -9,7 +9,13 @@ use rayon::prelude::*;
 use crate::model::{Content, State};
 
 pub fn write_file(key: &String, content: &Content, to: &PathBuf) -> std::io::Result<()> {
-    fs::write(to.clone().join(format!("{}.md", key)), content.as_str())
+    // fs::write truncates the file before it writes: if the write then fails (disk full, quota)
+    // or the process dies, the note is left empty or cut off. Write the new text next to the
+    // note and move it into place, so that the note always holds its old or its new text.
+    let path = to.clone().join(format!("{}.md", key));
+    let temporary = to.clone().join(format!("{}.md.iwe-tmp", key));
+    fs::write(&temporary, content.as_str())?;
+    fs::rename(&temporary, &path)
 }
 
 pub fn new_for_path(base_path: &PathBuf) -> State {
